@@ -496,6 +496,11 @@ func runCase(t *testing.T, tr *hx.Trace, id int, r *rand.Rand, script []string) 
 		} else {
 			w.gw = time.Duration(int64(r.IntN(4)) * 5 * sec)
 			w.gi = time.Duration(int64(1+r.IntN(4)) * 10 * sec)
+			if r.IntN(4) == 0 {
+				// shorter than the minimum flush timeout (10 s): a slow or failing delivery overruns the next tick,
+				// which is then handled late and carries a tick older than the wall clock
+				w.gi = time.Duration(int64(2+r.IntN(4)) * sec)
+			}
 			w.repeat = time.Duration(int64(1+r.IntN(5)) * 30 * sec)
 			w.retention = time.Duration(int64(2+r.IntN(6)) * 60 * sec)
 			srs := ""
